@@ -207,3 +207,18 @@ impl RecomputeHeap {
         ));
     }
 }
+
+#[cfg(cormacrelf_incremental_rs_verif)]
+impl RecomputeHeap {
+    /// Verification-only: a copy of the per-height queues, in queue order.
+    pub(crate) fn verif_queues(&self) -> Vec<Vec<NodeRef>> {
+        self.queues
+            .borrow()
+            .iter()
+            .map(|q| q.borrow().iter().cloned().collect())
+            .collect()
+    }
+    pub(crate) fn verif_lower_bound(&self) -> i32 {
+        self.height_lower_bound.get()
+    }
+}
